@@ -29,12 +29,13 @@ def run(ctx):
         ctx.violation("C06/spec-watcher", f"Watcher6 violates {r.violated}", {"tlc": r.trace})
     r = vlib.tlc_expect_violation("Watcher6", "Watcher6_neg.cfg", workers=2)
     ctx.add_tlc("negative control: id bumped before the swap (must fail NewAfterReport)", r, negative=True)
-    sim = 2500 if thorough else 500
-    suite = [("W3", 4, None, 6000), ("W3", 7, sim, None), ("W4", 5, None, 8000), ("W4", 7, sim, None), ("W4r", 7, None, 6000, "KeepTwoPasses"), ("W6", 6, sim, None),
+    sim = 2500 if thorough else 350
+    suite = [("W3", 4, None, 6000), ("W3", 7, sim, None), ("W4", 5, None, 5000), ("W4", 7, sim, None), ("W4r", 7, None, 6000, "KeepTwoPasses"), ("W6", 6, sim, None),
              ("W5", 6, sim // 2, None), ("W9", 5, sim // 2, None)]
     if thorough:
         suite += [("W3", 5, None, 40000)]
     hotcommon.run_suite(ctx, suite, hotcommon.classify_other("C06"))
+    hotcommon.pass_binding_demo(ctx)
     # a polling reader against the reloader: the id and the value change together (guards log both)
     import os
     import checks.c07 as c07
